@@ -12,7 +12,7 @@ CHECK_DEADLOCK FALSE
 def run(ctx):
     thorough = ctx.tier == "thorough"
     ctx.rule = ("scenario = option list of 1-8 user options (35 option functions x 2 value variants, duplicates allowed) preceded by 0-3 options of a platform definition's options block; each applied through "
-                "4 constructors; every fifth list also with one invalid option inserted at a pseudo-random position (unknown transport type, invalid NETCONF version, missing known-hosts file, network driver without privilege levels), "
+                "5 constructors (generic, network, NETCONF, platform of driver type network, platform of driver type generic); every fifth list also with one invalid option inserted at a pseudo-random position (unknown transport type, invalid NETCONF version, missing known-hosts file, network driver without privilege levels), "
                 "which the constructor must reject as Options!Invalid says; non-trivial = lists of at least two options; distinct by scenario x constructor")
     ctx.assumptions += ["file-path options point at existing files; numeric platform options are given values of the documented YAML type; boolean platform options are presence flags",
                         "the NETCONF constructor's own prompt pattern override is by design and not compared"]
@@ -31,8 +31,9 @@ def run(ctx):
     if len(scns) != count + (count + 4) // 5:
         raise ToolError("Options.tla produced %d of %d" % (len(scns), count + (count + 4) // 5))
     res = ctx.run_harness("c19", scns, timeout=3000)
-    if len(res) != len(scns) * 4:
-        raise ToolError("c19 answered %d of %d; stderr:\n%s" % (len(res), len(scns) * 4, ctx.last_stderr[-3000:]))
+    want = sum(4 if x.get("kind") == "invalid" else 5 for x in scns)
+    if len(res) != want:
+        raise ToolError("c19 answered %d of %d; stderr:\n%s" % (len(res), want, ctx.last_stderr[-3000:]))
     byid = {(s["id"], s.get("kind", "")): s for s in scns}
     for rr in res:
         ctx.count()
